@@ -51,6 +51,9 @@ macro "s_tac" : tactic =>
   | cons x rest ih => intro c; rw [releaseAll, ih, store_releaseIfUsed]
 @[simp] theorem store_decSendCount (c : C) : (decSendCount c).s.store = c.s.store := by
   unfold decSendCount; split <;> rfl
+@[simp] theorem store_releasePacketId (c : C) (id : Nat) : (releasePacketId c id).s.store = c.s.store :=
+  releasePacketId_ind (Q := fun c' => c'.s.store = c.s.store) c id (store_releaseIfUsed c id) (fun h => h)
+    (fun h => (store_decSendCount _).trans h)
 @[simp] theorem store_validateTopicAlias (c : C) (ao : Option Nat) : (validateTopicAlias c ao).2.s.store = c.s.store := by
   unfold validateTopicAlias; (repeat' split) <;> rfl
 @[simp] theorem store_tasInsert (c : C) (t : List Nat) (a : Nat) (x : String) : (tasInsert c t a x).s.store = c.s.store := by
@@ -629,7 +632,7 @@ theorem storeTG_step (cfg : Cfg) (s : St) (op : Op) (hr : RestoreTG op) (hs : St
     | setRespTimeout ms => exact .of_eq rfl
     | acquire => exact .of_eq rfl
     | register id => exact .of_eq rfl
-    | release id => exact .of_eq (store_releaseIfUsed _ id)
+    | release id => exact .of_eq (store_releasePacketId _ id)
     | erase id => exact sub_eraseStoredPublish _ id
     | restoreHandled ids => exact .of_eq rfl
     | restorePackets ps => exact sub_restorePackets ps hr _
